@@ -777,11 +777,21 @@ pixman_image_set_filter (pixman_image_t *      image,
 	height = pixman_fixed_to_int (params[1]);
 	x_phase_bits = pixman_fixed_to_int (params[2]);
 	y_phase_bits = pixman_fixed_to_int (params[3]);
+
+	/* A negative size on one axis could be made up for by the other
+	 * one in the length test below, and the phase bits are used as
+	 * shift counts (16 - bits as well) by the fetchers.
+	 */
+	return_val_if_fail (width >= 0 && height >= 0, FALSE);
+	return_val_if_fail (x_phase_bits >= 0 && x_phase_bits <= 16, FALSE);
+	return_val_if_fail (y_phase_bits >= 0 && y_phase_bits <= 16, FALSE);
+
 	n_x_phases = (1 << x_phase_bits);
 	n_y_phases = (1 << y_phase_bits);
 
 	return_val_if_fail (
-	    n_params == 4 + n_x_phases * width + n_y_phases * height, FALSE);
+	    n_params == 4 + (int64_t)n_x_phases * width +
+			(int64_t)n_y_phases * height, FALSE);
     }
     
     new_params = NULL;
